@@ -370,5 +370,10 @@ pub proof fn lemma_dict_split(dict: Seq<u8>, view: Seq<u8>, offset: int, n: int)
     }
 }
 
+pub proof fn verif_canary_must_fail(x: int)
+    requires x > 0,
+    ensures x > 1,
+{
+}
 } // verus!
 fn main() {}
